@@ -94,6 +94,10 @@ def entry_points(j, version, allow, is_observable_type):
     id_ = j.get("id")
     eps = []
     eps.append(("dict_to_stix2", lambda: dict_to_stix2(J(), version=version, **kw)))
+    # the wrappers around the parser
+    from stix2 import Environment
+    eps.append(("Environment.parse(version=)", lambda: Environment().parse(J(), version=version, **kw)))
+    eps.append(("Environment.parse(text, version=)", lambda: Environment().parse(json.dumps(j), version=version, **kw)))
     eps.append(("parse(text)", lambda: stix2.parse(json.dumps(j), version=version, **kw)))
     if is_observable_type:
         eps.append(("parse_observable", lambda: stix2.parse_observable(J(), version=version, **kw)))
@@ -213,6 +217,31 @@ def entry_points(j, version, allow, is_observable_type):
             for m in ("get", "all_versions", "query"):
                 eps.append(("FileSystemSource.%s(version=)[legacy-layout]" % m, fs_legacy(m)))
 
+        if version is None:
+            # federation in front of the stores (no version can be named there: whatever the composite hands down must not end up in the version slot)
+            from stix2 import CompositeDataSource, Filter
+
+            def composite(kind, method, with_filter):
+                def f():
+                    if kind == "fs":
+                        d = sc.fresh()
+                        write_raw(d, j)
+                        src = FileSystemSource(d, **kw)
+                    else:
+                        src = MemorySource(J(), **kw)
+                    cds = CompositeDataSource()
+                    cds.add_data_source(src)
+                    if with_filter:
+                        cds.filters.add(Filter("type", "=", j["type"]))
+                    tgt = Environment(source=cds) if method.startswith("env.") else cds
+                    m = method.split(".")[-1]
+                    return tgt.get(id_) if m == "get" else tgt.all_versions(id_) if m == "all_versions" else tgt.query([Filter("id", "=", id_)])
+                return f
+            for kind in ("fs", "mem"):
+                for method in ("get", "all_versions", "query", "env.get"):
+                    for wf in (False, True):
+                        eps.append(("Composite(%s%s).%s" % (kind, "+filter" if wf else "", method), composite(kind, method, wf)))
+
         def fstore_get():
             d = sc.fresh()
             write_raw(d, j)
@@ -275,7 +304,7 @@ def run_case(case, part):
                     got, err = outcome(fn)
                     exp = ref
                     # the stores' own default is allow_custom=True: compare them with the permissive reference
-                    if allow is None and not name.startswith(("dict_to_stix2", "parse")) and not name.startswith("FileSystemSink"):
+                    if allow is None and not name.startswith(("dict_to_stix2", "parse", "Environment.parse")) and not name.startswith("FileSystemSink"):
                         exp, _ = outcome(lambda: stix2.parse(copy.deepcopy(j), version=version, allow_custom=True))
                     if name.startswith("FileSystemSink"):
                         # judged on (accepted?, what was written) so that the sink is not judged through the source
